@@ -11,9 +11,9 @@ package utils
 func LoadDatabaseFromStream$1
   props C08 C09 C10 C01
   refines parser.StopOnErr
-  requires @wfdb WfDB(nodeMap)
+  requires @wfdb WfDBI(nodeMap)
   modifies mapof(nodeMap)
-  ensures @wfdb WfDB(nodeMap)
+  ensures @wfdb WfDBI(nodeMap)
 
 // LoadDatabaseFromStream: the book is a well-formed map; the load fails iff the file has a malformed line
 // or cannot be read completely, quoting the first malformed line
@@ -23,7 +23,7 @@ func LoadDatabaseFromStream returns (db, err)
   modifies ghost(cbLen, cbErr, cbNode, cbStop, cbRet, cbLineNo, cbLine, cbHeader, cbElems, cbNElems, scRd, scPos, privLo, evOf)
   let rd := payload(dbStream)
   let cc := pc.CommentChar
-  ensures @wfdb [C08 C01] WfDB(db) && fresh(db)
+  ensures @wfdb [C08 C01] WfDBI(db) && fresh(db)
   ensures @fails-on-malformed [C09] err == nil ==> (forall i int :: {RdLine(rd, i)} 0 <= i && i < RdN(rd) ==> !Malformed(rd, i, cc))
   ensures @fails-on-unreadable [C10] err == nil ==> !RdFailed(rd)
   ensures @quotes-first [C09] forall j int :: {cbErr[j]} old(cbLen) <= j && j < cbLen && cbErr[j] != nil ==> j == cbLen - 1 && err == cbErr[j] && (forall i2 int :: {RdLine(rd, i2)} 0 <= i2 && i2 < cbLineNo[j] - 1 ==> !Malformed(rd, i2, cc))
